@@ -308,8 +308,15 @@ pub fn check_verdict(out: &RunOut) -> Result<(), String> {
     // even be refused with a mock-induced panic), but it matched its pattern: the count is defined,
     // and so is the verdict - the recorded errors if it was refused, the expectation lines if not.
     if !cfg!(feature = "std") && out.original_panicked {
-        // no_std: a mock-induced panic on the original disables its verification (documented)
-        return Ok(());
+        // no_std: a mock-induced panic on the original disables its verification (documented):
+        // whatever happened before or after, verifying it is silent - in particular it does not
+        // panic a second time
+        return match verdict {
+            Verdict::Silent => Ok(()),
+            Verdict::Failed(lines) => Err(format!(
+                "without std a mock-induced panic on the original disables its verification, yet verifying it failed with {lines:?}"
+            )),
+        };
     }
     if !out.model.errors.is_empty() || !out.mock_panics.is_empty() {
         // C08: verification fails and carries the text of every mock-induced panic
